@@ -12,7 +12,7 @@ PROP = "C06"
 def gen(rng, tier, boost):
     cases = []
     dist = {"generated_doc": 0}
-    n = (15000 if tier == "quick" else 400000) * boost
+    n = (15000 if tier == "quick" else 250000) * boost
     for _ in range(n):
         w = rng.randrange(4)
         v, out = jc.gen_doc(rng, w, maxlen=rng.choice([40, 100, 200]))
